@@ -1,9 +1,11 @@
 /-
-Strict base64 (RFC 4648 alphabet, padding required, nothing else allowed) — what
-`base64.b64decode(s, validate=True)` accepts on a `str`.  Library behaviour: this definition is
-shared by the model (`BLOBType.import_value`) and by the specification ("base64 decoded strictly");
-its agreement with CPython is checked by the correspondence run, not proved.  As in CPython, unused
-trailing bits of the last quantum are not required to be zero (`"YR=="` decodes like `"YQ=="`).
+Canonical base64 (RFC 4648 alphabet, padding required, unused bits of the last quantum zero, nothing
+else allowed): a string is accepted iff it is the encoding `base64.b64encode` produces for some
+bytes.  This is what the repaired `BLOBType.import_value` accepts (`b64decode(validate=True)` followed by
+a comparison with the re-encoded result — CPython's strict mode alone tolerates excess `=` after a
+complete quantum and non-zero unused bits).  Library behaviour: this definition is shared by the model
+and by the specification ("base64 decoded strictly"); its agreement with CPython is checked by the
+correspondence run, not proved.
 -/
 namespace Frappy.Base64
 
@@ -19,11 +21,12 @@ def decodeChars : List Char → Option (List UInt8)
   | [] => some []
   | [a, b, '=', '='] =>
     match sextet a, sextet b with
-    | some x, some y => some [(x * 4 + y / 16).toUInt8]
+    | some x, some y => if y % 16 = 0 then some [(x * 4 + y / 16).toUInt8] else none
     | _, _ => none
   | [a, b, c, '='] =>
     match sextet a, sextet b, sextet c with
-    | some x, some y, some z => some [(x * 4 + y / 16).toUInt8, ((y % 16) * 16 + z / 4).toUInt8]
+    | some x, some y, some z =>
+      if z % 4 = 0 then some [(x * 4 + y / 16).toUInt8, ((y % 16) * 16 + z / 4).toUInt8] else none
     | _, _, _ => none
   | a :: b :: c :: d :: rest =>
     match sextet a, sextet b, sextet c, sextet d, decodeChars rest with
